@@ -238,6 +238,7 @@ def explore(chk):
                                  "positioning: what a writer is given after another writer wrote the same caption set differs from a fresh set (layouts completed / clipped for one document leak into the next)")
     # ---------------- DFXP: one region's attributes, written and read (model correspondence + the property's own wording)
     c12_region.explore(chk, pycaption)
+    c12_region.explore_inherited_alignment(chk, pycaption)
     # ---------------- DFXP round trip: effective layout per visible character (1-3 languages, each with its own layout or none)
     LANGS = ["en-US", "fr-FR", "de-DE"]
     empty_sub = chk.sub("empty_layout_object")
